@@ -114,4 +114,26 @@ CarrierOrderIrrelevant(variant, o, n, own, codes) ==
 \* treatment codings: a row is zero exactly for the reference level OF THE NOMINATED LIST (and for nulls)
 CarrierReferenceLevel(variant, o, n, own, codes) == o.name \in {"treatment", "sas"} /\ n > 1 =>
   \A r \in DOMAIN codes : (\A j \in 1..(n - 1) : EncodeCarrierReduced(variant, o, n, own, codes)[r][j] = Zero) <=> CarrierLevels(own, codes)[r] \in {0, BaseOf(o, n)}
+
+(* reuse: ONE contrasts object is a value (a coding rule), "for every n ... every level list" holds for every use of it, whatever it was used *)
+(* with before.  Here the object names its reference level by LABEL (o.base = a label of a universe, 0 = default); a level list lv is a        *)
+(* sequence of distinct labels; the positional option of Coding/Interp is resolved per use.  MC_ContrastsReuse walks the histories.            *)
+PosIn(x, lv) == IF \E i \in DOMAIN lv : lv[i] = x THEN CHOOSE i \in DOMAIN lv : lv[i] = x ELSE 0
+\* "memo-position": the position found at the first resolution is kept on the object (memo, 0 = nothing kept yet) and trusted from then on
+ResolvedBase(variant, memo, o, lv) == IF o.base = 0 THEN 0 ELSE IF variant = "memo-position" /\ memo # 0 THEN memo ELSE PosIn(o.base, lv)
+Positional(variant, memo, o, lv) == [o EXCEPT !.base = ResolvedBase(variant, memo, o, lv)]
+\* the label of the reference level of this use: the one named, else the first (treatment) / last (SAS) of THIS list
+ReferenceLabel(o, lv) == IF o.base # 0 THEN o.base ELSE IF o.name = "sas" THEN lv[Len(lv)] ELSE lv[1]
+\* treatment codings, stated on labels and independently of BaseOf/TLevel: the zero row is the row of the reference label, every other row is the
+\* indicator of the column carrying its own label, and the columns carry the other labels in the order of the list
+ReuseReferenceByLabel(variant, memo, o, lv) == o.name \in {"treatment", "sas"} =>
+  LET n == Len(lv) po == Positional(variant, memo, o, lv) Cm == Coding(po, n) ref == ReferenceLabel(o, lv)
+      others == SelectSeq(lv, LAMBDA x : x # ref) IN
+  /\ po.base \in 0..n
+  /\ [j \in 1..(n - 1) |-> lv[ColLevel(po, n, j)]] = others
+  /\ \A i \in 1..n : \A j \in 1..(n - 1) : Cm[i][j] = R(B2I(lv[i] = others[j]))
+  /\ lv[DropLevel(po, n)] = ref
+\* and every use is a standard coding of its own size (what MC_Contrasts proves of a fresh object)
+ReuseStandard(variant, memo, o, lv) == LET n == Len(lv) po == Positional(variant, memo, o, lv) IN
+  po.base \in 0..n /\ Standard(po, n) /\ ColumnsSumToZero(po, n) /\ NRows(Coding(po, n)) = n /\ (n > 1 => NCols(Coding(po, n)) = n - 1)
 =============================================================================
